@@ -7,7 +7,8 @@ ENCCFG = {'decline_loop_obligations_in': {ENC + 'encap_ext'}}
 
 def self_fields(a, w):
     """values of the fields of *self in world w (None when there is no self)"""
-    if a.body.local_names.get(1) != 'self':
+    t1 = a.body.local_ty(1) if a.body.arg_count else None
+    if not (t1 and t1['k'] == 'ref' and t1['to']['k'] == 'adt' and t1['to']['name'].endswith('Encapsulator')):
         return None
     ref = a.args[0]
     if ref[0] != 'ref':
@@ -28,6 +29,38 @@ def zero_label_tests(a, facts):
     return keys
 
 
+def zero_label_excluded(a, facts, W, zkeys):
+    """in world W the label passed in the metadata cannot be SixBytesLabel([0; 6]): either the equality test with that constant
+    was taken on its false side, or (byte-wise tests, patterns) the constraints give sum of the six bytes >= 1"""
+    if any(W.facts.get(k) is False for k in zkeys):
+        return True
+    six = variant_index(facts, 'label::Label', 'SixBytesLabel')
+    i_label = field_index(facts, 'gse_encap::EncapMetadata', 'label')
+    idx = param_index(a.body, 'metadata')
+    root = [r for r in W.mem if r[0] == 'L' and r[2] == idx and a.I.frames.get(r[1]) is not None and a.I.frames[r[1]].body is a.body and a.I.frames[r[1]].ctx == ()]
+    lab = None
+    if root:
+        md = W.mem[root[0]]
+        if md[0] == 'agg':
+            lab = md[1][i_label]
+    if lab is None:
+        lab = a.arg('metadata')[1][i_label]
+    if lab[0] != 'enum':
+        return False
+    pl = dict(lab[1]).get(six)
+    if pl is None:
+        return True                      # not a 6-byte label in this world
+    if not pl or pl[0][0] != 'arr':
+        return False
+    total = Lin.c(0)
+    for i in range(6):
+        x = ATOMS.by_key.get(('arr_elem', pl[0][2], Lin.c(i)))
+        if x is None:
+            return False                 # a byte nobody looked at cannot have been excluded
+        total = total + Lin.atom(x)
+    return W.store.entails(le(Lin.c(1), total))
+
+
 def run(ck):
     f = ck.facts
     i_ptype = field_index(f, 'gse_encap::EncapMetadata', 'protocol_type')
@@ -40,7 +73,7 @@ def run(ck):
     n = 0
     for name, a in an.items():
         n += ck.count_obligations(a.obligations(), 'C09.R1')
-    ck.rule('C09.R1 panic-freedom of encap, encap_frag, encap_ext and both previews', n, 190)
+    ck.rule('C09.R1 panic-freedom of encap, encap_frag, encap_ext and both previews', n, 100)
     # ---- R2 / R3 / R4 at the returns
     n_err = n_ok = 0
     for wname in WRITERS:
@@ -49,8 +82,6 @@ def run(ck):
         broot = buf[1].root
         init_self = self_fields(a, a.w0)
         zkeys = zero_label_tests(a, f) if wname != 'encap_frag' else []
-        if wname != 'encap_frag':
-            ck.rule(f'C09.R4 zero-label test present in {wname}', len(set(zkeys)), 1)
         for w, rv in a.rets:
             alts = ret_alts(rv)
             if alts is None:
@@ -79,7 +110,7 @@ def run(ck):
         # R4 facts, evaluated where every Ok path must pass: the generate_gse_header call
         nh = 0
         for r in a.events('call'):
-            if r.data[1] != GEN_HDR or r.site[0] != ENC + wname:
+            if r.data[1] != GEN_HDR:
                 continue
             nh += 1
             W = r.data[5]
@@ -88,9 +119,8 @@ def run(ck):
             if wname in ('encap', 'encap_ext'):
                 md = a.arg('metadata')
                 pt = md[1][i_ptype][1]
-                for k in set(zkeys):
-                    if W.facts.get(k) is not False:
-                        ck.finding('C09.R4', ENC + wname, 'zero-label-accepted', f"{wname}: a packet is built without the label having been compared unequal to the zero 6-byte label", r.site)
+                if not zero_label_excluded(a, f, W, zkeys):
+                    ck.finding('C09.R4', ENC + wname, 'zero-label-accepted', f"{wname}: a packet is built without the label having been shown different from the zero 6-byte label", r.site)
                 lo_ok = W.store.entails(lt(pt, Lin.c(0x100)))
                 hi_ok = W.store.entails(le(Lin.c(0x600), pt))
                 fact_ok = any(isinstance(k, tuple) and k[0] == 'form' and v is False and is_range_form(k[1], pt) for k, v in W.facts.items())
